@@ -37,6 +37,16 @@ CLAIMED = {
          "Decides PUT-verbatim, verify-before-PUT with exactly two verified signatures, target URL construction, success implies status == 200 with method PUT, per-log isolation (loop unrolled twice). Signature validity and net/http behaviour trusted.", "5/C15"),
  "C16": ("value-identity analysis over handler/client path summaries + code tables + route-pattern check against the ID alphabet",
          "Decides handler-verbatim, NotFound<->404<->os.ErrNotExist mappings on implied facts, log list = JSON of storage keys, route pattern admits every hex ID. Routing internals of gorilla/mux trusted.", "5/C16"),
+ "C12": ("key pass-through/provenance analysis over path summaries + sibling agreement over the feeder registry + constructor-discipline queries",
+         "Decides that the request's log ID is the only key used in Update and both stores, that every origin->ID derivation is formats/log.ID(origin), that feeders/bastion/distributor use {ID, Origin, Verifier} of one config.Log, that duplicates are refused before start-up, and that no cross-log mutable state exists. Executions of interleaved histories are not explored.", "5/C12"),
+ "C14": ("wiring analysis over the path summaries of Main/Run/connectAndServe + enum exhaustiveness over the feeder registry",
+         "Narrow structural claim (level other): one witness instance behind every component, every registry feeder has an implementation and is launched, service loops return only on context end, first-feed proof is empty. Convergence, timing, restarts are NOT decided.", "5/C14"),
+ "C17": ("configuration lint: every entry of the embedded YAML files validated against constraint sets extracted from the code on each run",
+         "Exhaustive over the finite set of shipped entries: key parses (production parser), ID unique, feeder known, URL acceptable to its feeder; plus code-side exhaustiveness and abort-on-error wiring. Does not decide that the keys/URLs are the right ones.", "5/C17"),
+ "C18": ("constant agreement with the pinned reference implementation + argument-position (plumbing) analysis over path summaries",
+         "Narrow structural claim (level other): pathBase/format literals agree with tlog, height constants coherent, tile coordinates and ProveTree arguments in the right positions. Path strings for all indices and proof acceptance are NOT decided (O3).", "5/C18"),
+ "C19": ("reachability of panic sites in the network-input call graph + zone-domain discharge of every index/slice site on every path + bounded-narrowing rule + constant checks of caps/time-outs",
+         "Structural necessary conditions (level other): no reachable explicit panic, every implicit-panic instruction dominated by bounds facts or in a reasoned table, bounded size narrowing before tlog, one status per path, 16 KiB cap, time-outs present. Termination in general, memory exhaustion and dependency panics are not decided.", "5/C19"),
  "C20": ("path-sensitive effect summaries: outcome-to-counter table over all paths of Update",
          "Decides exactly-once increments per outcome with counters identified by metric name, label provenance, single assignment in Once.Do, constructors initialise metrics.", "5/C20"),
 }
